@@ -79,6 +79,9 @@ func runC18(c *Ctx) {
 		c.Pred("sign", "signed-layout", in, lay, "", "packed message ++ one SIG record, ARCOUNT+1", true)
 		walk := fmt.Sprintf("ok %d %d %d %d %d %s %s", len(packed), len(packed)+11, len(out)-64, now+300, now-300, hxs("signer.example."), hx(cs.got[0]))
 		c.Op("sign", "sig0.walk "+hx(out), walk, true)
+		// (a2) what Sign hashes and returns = the model of Sign applied to the packed message and the signature octets
+		c.Op("sign-model", fmt.Sprintf("sig0.sign %s %d %d %d %d %s %s", hx(packed), dns.ED25519, now+300, now-300, 77, hxs("signer.example."),
+			hx(out[len(out)-64:])), hx(out)+" "+hx(cs.got[0]), true)
 		// (b) real keys
 		alg := algs[r.Intn(len(algs))]
 		k := keys[alg]
@@ -109,6 +112,46 @@ func runC18(c *Ctx) {
 		}
 		v := verify(out, key)
 		c.Pred("verify", "sign-then-verify", fmt.Sprintf("alg=%d %s", alg, in), v == "ok", v, "ok", true)
+		// Verify as a whole on the model (Ed25519: the hash is the identity, the check is done with the standard library)
+		var vqs []sigVerifyQuery
+		var s1 *dns.SIG
+		if alg == dns.ED25519 && v == "ok" {
+			var mm dns.Msg
+			mm.Unpack(out)
+			s1 = mm.Extra[len(mm.Extra)-1].(*dns.SIG)
+		}
+		ask := func(b []byte, label string) {
+			if s1 == nil {
+				return
+			}
+			at := uint32(time.Now().Unix())
+			res := guard(func() string {
+				if err := s1.Verify(key, b); err != nil {
+					return "err"
+				}
+				return "ok"
+			})
+			vqs = append(vqs, sigVerifyQuery{buf: append([]byte{}, b...), real: res, at: at, in: label})
+		}
+		ask(out, "signed "+in)
+		for k2 := 0; k2 < 6 && s1 != nil; k2++ {
+			if hb := mutateBytes(r, out); len(hb) >= 12 {
+				ask(hb, "mutated "+in)
+			}
+		}
+		if s1 != nil && len(out) < 400 {
+			for bit := 0; bit < len(out)*8; bit += 5 {
+				t2 := append([]byte{}, out...)
+				t2[bit/8] ^= 1 << uint(bit%8)
+				ask(t2, fmt.Sprintf("bit=%d %s", bit, in))
+			}
+			for cutAt := 12; cutAt < len(out); cutAt += 2 {
+				ask(out[:cutAt], fmt.Sprintf("cut=%d %s", cutAt, in))
+			}
+		}
+		if s1 != nil {
+			sigModelVerdicts(c, "verify-model", k.signer.(ed25519.PrivateKey).Public().(ed25519.PublicKey), key.Hdr.Name, vqs)
+		}
 		if v != "ok" {
 			continue
 		}
